@@ -126,8 +126,8 @@ func CSVConsumer(opts ...CSVOpt) Consumer {
 				}
 
 				v.Grow(len(csvWriter.records))
+				v.SetLen(len(csvWriter.records)) // the destination may hold more records than were read
 				v.SetCap(len(csvWriter.records)) // in case Grow was unnessary, trim down the capacity
-				v.SetLen(len(csvWriter.records))
 				reflect.Copy(v, reflect.ValueOf(csvWriter.records))
 
 				return nil
